@@ -23,7 +23,7 @@ pub proof fn lemma_blen_take_mono(s: Seq<char>, i: int, j: int)
             blen(s.take(j)) <= blen(s)
     decreases j - i
 {
-    broadcast use axiom_clen_bounds;
+    broadcast use lemma_clen_bounds;
     assert(s.take(j) + s.skip(j) =~= s);
     lemma_blen_add(s.take(j), s.skip(j));
     if i < j {
